@@ -15,7 +15,7 @@ META = {
     "functions": ["typelib.serdes.decode", "typelib.serdes.load", "typelib.serdes.strload", "typelib.py.inspection.istexttype",
                   "every unmarshaller's text entry (serdes.load / serdes.decode)"],
     "bounds": {
-        "quick": "five carriers (str, bytes, bytearray, memoryview(bytes), memoryview(bytearray)) x catalogue core x 22 texts (look-alikes: "
+        "quick": "six carriers (str, bytes, bytearray, memoryview(bytes), memoryview(bytearray), a memoryview slice of a larger buffer) x catalogue core x 29 texts (look-alikes: "
                  "numerals, true/null/None, JSON and Python-literal containers, malformed JSON, ISO date / duration, control and non-ASCII "
                  "characters) + the JSON and repr() text of wire values assembled from pick-lists; load/strload on every string of length <= 2 "
                  "and a seed-rotated third of length 3 over a 14-character alphabet ([]{}\",:0-9a space e-acute NUL) in str and bytes; "
@@ -26,9 +26,12 @@ META = {
                     "results are compared by a canonical rendering (classes + values)"],
 }
 
-CARRIERS = ("str", "bytes", "bytearray", "memoryview", "memoryview_rw")
+CARRIERS = ("str", "bytes", "bytearray", "memoryview", "memoryview_rw", "memoryview_slice")
 TEXTS = ["1", "-2", "1.5", "true", "null", "None", "[1]", "[1, 2]", '{"a": 1}', "{'a': 1}", "(1, 2)", "1,2", "abc", "", " 1 ", "é", "a\x00b",
-         "2020-01-01", "2020-01-01T00:00:00+00:00", "PT1S", "[1", '"q"']
+         "2020-01-01", "2020-01-01T00:00:00+00:00", "PT1S", "[1", '"q"',
+         # digits and blanks outside ASCII (int / float / Decimal accept them), texts of exactly 16 and 36 bytes
+         "\u0661\u0662", "\u00a07", "\uff11.\uff15", "1234567890123456", "not-a-uuid-at-al", "\u00e9" * 8,
+         "12345678-1234-5678-1234-567812345678"]
 # JSON text that is also a Python literal with another meaning, and literals that are not JSON
 JSONISH = ['"\\/"', '["\\ud83d\\ude00"]', '{"url":"http:\\/\\/x"}', '"\\u00e9"', "123456789012345678901234567890", "1e400",
            "-0", "1E2", '"\\n"', "[1.0, 2]", '{"a": [1, {"b": null}]}', "1_000", "0x10", "[1,]", "(1)", "'a' 'b'", "b'x'", "{1, 2}",
@@ -42,6 +45,8 @@ def _d(*xs):
 
 def carry(s: str, c: str):
     b = s.encode("utf8")
+    if c == "memoryview_slice":  # the text as a field inside a larger buffer
+        return memoryview(b"[1" + b + b"0]")[2:-2]
     return {"str": s, "bytes": b, "bytearray": bytearray(b), "memoryview": memoryview(b), "memoryview_rw": memoryview(bytearray(b))}[c]
 
 
